@@ -391,8 +391,9 @@ fn run_val(a: &Value) -> String {
     guarded(|| {
         let c = a.clone();
         format!(
-            "{} selfeq={} selfcmp={} cloneeq={} clonecmp={} clonehash={}",
+            "{} len={} selfeq={} selfcmp={} cloneeq={} clonecmp={} clonehash={}",
             kind_name(a),
+            if a.kind() == minijinja::value::ValueKind::Map { a.len().map_or("?".to_string(), |n| n.to_string()) } else { "-".to_string() },
             (a == a) as u8,
             ord_char(a.cmp(a)),
             (*a == c) as u8,
@@ -1026,7 +1027,7 @@ fn main() {
                             let c = count.to_string();
                             writeln!(out, "{which} {len} {c} {}\t{}", fill as u8, run_runs(&env, which, len, &c, fill)).unwrap();
                         }
-                        if !fill && len <= 3 {
+                        if len <= 3 {
                             for c in huge {
                                 writeln!(out, "{which} {len} {c} {}\t{}", fill as u8, run_runs(&env, which, len, c, fill)).unwrap();
                             }
